@@ -1,18 +1,476 @@
-(* C05 — proofs about the model (see C05/Model.v). *)
+(* C05 — proofs about the model (C05/Model.v) against the spec (C05/Spec.v), part 1:
+   dictionaries, state extension, the image relation, pot_transform / cell_transform and the
+   cache invariant. *)
 From Coq Require Import List ZArith Bool Lia.
-From T4V Require Import C05.Model.
+From T4V Require Import C05.Model C05.Spec.
 Import ListNotations.
 Open Scope Z_scope.
+
+(* ---- dictionaries ------------------------------------------------------------------------ *)
+Lemma dget_dset_same : forall {V} k (v : V) d, dget k (dset k v d) = Some v.
+Proof.
+  intros V k v d. induction d as [|[k' v'] r IH]; cbn.
+  - rewrite Z.eqb_refl. reflexivity.
+  - destruct (k =? k') eqn:E; cbn; rewrite ?Z.eqb_refl; try reflexivity.
+    rewrite E. exact IH.
+Qed.
+
+Lemma dget_dset_other : forall {V} k k' (v : V) d, k' <> k -> dget k' (dset k v d) = dget k' d.
+Proof.
+  intros V k k' v d Hne. induction d as [|[k0 v0] r IH]; cbn.
+  - destruct (k' =? k) eqn:E; [apply Z.eqb_eq in E; contradiction | reflexivity].
+  - destruct (k =? k0) eqn:E; cbn.
+    + apply Z.eqb_eq in E. subst k0.
+      destruct (k' =? k) eqn:E2; [apply Z.eqb_eq in E2; contradiction | reflexivity].
+    + destruct (k' =? k0); [reflexivity | exact IH].
+Qed.
+
+Lemma dget_In : forall {V} k (v : V) d, dget k d = Some v -> In (k, v) d.
+Proof.
+  intros V k v d. induction d as [|[k' v'] r IH]; cbn; intros H; [discriminate|].
+  destruct (k =? k') eqn:E.
+  - apply Z.eqb_eq in E. inversion H. subst. left. reflexivity.
+  - right. apply IH. exact H.
+Qed.
+
+Lemma In_dget_some : forall {V} k (v : V) d, In (k, v) d -> dget k d <> None.
+Proof.
+  intros V k v d. induction d as [|[k' v'] r IH]; cbn; intros H; [contradiction|].
+  destruct (k =? k') eqn:E; [discriminate|].
+  destruct H as [H|H]; [inversion H; subst; rewrite Z.eqb_refl in E; discriminate | apply IH; exact H].
+Qed.
+
+(* ---- generic facts on the state-threaded traversals ---------------------------------------- *)
+Section Traversals.
+Context {A B S : Type}.
+Variable I : S -> Prop.
+Variable ext : S -> S -> Prop.
+Hypothesis ext_refl : forall s, ext s s.
+Hypothesis ext_trans : forall a b c, ext a b -> ext b c -> ext a c.
+
+Lemma mapM_st_spec : forall (f : A -> S -> res (B * S)) (R : S -> A -> B -> Prop),
+  (forall s s' a b, ext s s' -> R s a b -> R s' a b) ->
+  forall l,
+  (forall a, In a l -> forall s b s', I s -> f a s = Ok (b, s') -> I s' /\ ext s s' /\ R s' a b) ->
+  forall s bs s', I s -> mapM_st f l s = Ok (bs, s') ->
+  I s' /\ ext s s' /\ Forall2 (R s') l bs.
+Proof.
+  intros f R Rmono l. induction l as [|a r IH]; intros Hf s bs s' HI H; cbn in H.
+  - inversion H; subst. repeat split; auto.
+  - destruct (f a s) as [[b s1]|] eqn:E1; [|discriminate].
+    destruct (mapM_st f r s1) as [[bs' s2]|] eqn:E2; [|discriminate].
+    inversion H; subst.
+    destruct (Hf a (or_introl eq_refl) _ _ _ HI E1) as (HI1 & Hx1 & HR1).
+    destruct (IH (fun a' Hin => Hf a' (or_intror Hin)) _ _ _ HI1 E2) as (HI2 & Hx2 & HR2).
+    repeat split; eauto.
+Qed.
+
+Lemma concatM_st_spec : forall (f : A -> S -> res (list B * S)) (R : S -> A -> list B -> Prop),
+  (forall s s' a b, ext s s' -> R s a b -> R s' a b) ->
+  forall l,
+  (forall a, In a l -> forall s b s', I s -> f a s = Ok (b, s') -> I s' /\ ext s s' /\ R s' a b) ->
+  forall s bs s', I s -> concatM_st f l s = Ok (bs, s') ->
+  I s' /\ ext s s' /\ exists bss, bs = concat bss /\ Forall2 (R s') l bss.
+Proof.
+  intros f R Rmono l. induction l as [|a r IH]; intros Hf s bs s' HI H; cbn in H.
+  - inversion H; subst. repeat split; auto. exists []. split; auto.
+  - destruct (f a s) as [[b s1]|] eqn:E1; [|discriminate].
+    destruct (concatM_st f r s1) as [[bs' s2]|] eqn:E2; [|discriminate].
+    inversion H; subst.
+    destruct (Hf a (or_introl eq_refl) _ _ _ HI E1) as (HI1 & Hx1 & HR1).
+    destruct (IH (fun a' Hin => Hf a' (or_intror Hin)) _ _ _ HI1 E2) as (HI2 & Hx2 & bss & Hc & HR2).
+    repeat split; eauto. exists (b :: bss). cbn. subst bs'. split; eauto.
+Qed.
+End Traversals.
+
+(* induction on trees with the hypothesis for every argument of a node *)
+Lemma tree_ind' : forall (Q : tree -> Prop),
+  (forall x, Q (TSurf x)) -> (forall c, Q (TRef c)) -> (forall c, Q (TCompl c)) ->
+  (forall op args, (forall a, In a args -> Q a) -> Q (TNode op args)) ->
+  forall e, Q e.
+Proof.
+  intros Q Hs Hr Hc Hn. fix IH 1. intros [x|c|c|op args]; [apply Hs | apply Hr | apply Hc |].
+  apply Hn. induction args as [|a r IHr]; intros a' Hin; [contradiction|].
+  destruct Hin as [<-|Hin]; [apply IH | apply IHr; exact Hin].
+Qed.
 
 Section Proofs.
 Variable T : Type.
 Variable surf : Type.
+Variable P : Type.
 Variable tr_empty : T -> bool.
 Variable teqb : T -> T -> bool.
 Variable tr_surf : T -> surf -> surf.
+Variable inv : T -> P -> P.
+Variable sense : surf -> P -> bool.
 
-Lemma pot_transform_compl_untouched : forall fuel t c (s : state T surf),
-  pot_transform T surf tr_empty teqb tr_surf fuel t (TCompl c) s = Ok (TCompl c, s).
-Proof. intros fuel t c s. unfold pot_transform. destruct (tr_empty t); reflexivity. Qed.
+(* the interface law of the numeric layer (C04): the transformed surface at p has the sense
+   of the original surface at inv t p *)
+Hypothesis sense_tr : forall t o p, sense (tr_surf t o) p = sense o (inv t p).
+(* equal cache keys (Python: tuple(t1) == tuple(t2)) are the same motion *)
+Hypothesis teqb_sound : forall a b, teqb a b = true ->
+  tr_empty a = tr_empty b /\ forall p, inv a p = inv b p.
+
+Notation state := (state T surf).
+Notation cell := (cell T).
+Notation Den := (Den T surf P sense).
+Notation DenL := (DenL T surf P sense).
+Notation cell_transform := (cell_transform T surf tr_empty teqb tr_surf).
+Notation pot_transform_gen := (pot_transform_gen T surf tr_surf).
+Notation pot_transform := (pot_transform T surf tr_empty teqb tr_surf).
+Notation apply_trcl := (apply_trcl T surf tr_empty teqb tr_surf).
+Notation transform_seq := (transform_seq T surf tr_empty teqb tr_surf).
+Notation cget := (cget T teqb).
+Notation cset := (cset T teqb).
+Notation add_cache := (add_cache T surf teqb).
+
+Lemma pot_transform_compl_untouched : forall fuel t c (s : state),
+  pot_transform fuel t (TCompl c) s = Ok (TCompl c, s).
+Proof. intros fuel t c s. unfold Model.pot_transform. destruct (tr_empty t); reflexivity. Qed.
+
+(* ---- extension of the tables --------------------------------------------------------------- *)
+Definition extends (s s' : state) : Prop :=
+  (forall k v, dget k (s_cells s) = Some v -> dget k (s_cells s') = Some v) /\
+  (forall k v, dget k (s_surfs s) = Some v -> dget k (s_surfs s') = Some v).
+
+Lemma extends_refl : forall s, extends s s.
+Proof. intros s. split; auto. Qed.
+
+Lemma extends_trans : forall a b c, extends a b -> extends b c -> extends a c.
+Proof. intros a b c [H1 H2] [H3 H4]. split; auto. Qed.
+
+Lemma Den_mono : forall s s' p, extends s s' ->
+  (forall e b, Den s p e b -> Den s' p e b) /\ (forall es bs, DenL s p es bs -> DenL s' p es bs).
+Proof.
+  intros s s' p [Hc Hs].
+  apply (Den_DenL_ind T surf P sense s p
+           (fun e b _ => Den s' p e b) (fun es bs _ => DenL s' p es bs)).
+  - intros x o H. apply DSurf. apply Hs. exact H.
+  - intros c cl b H _ IH. eapply DRef; [apply Hc; exact H | exact IH].
+  - intros op args bs _ IH. apply DNode. exact IH.
+  - apply DNil.
+  - intros e b es bs _ IH1 _ IH2. apply DCons; assumption.
+Qed.
+
+Lemma Den_surf_inv : forall s p x b, Den s p (TSurf x) b ->
+  exists o, dget (Z.abs x) (s_surfs s) = Some o /\ b = lit x (sense o p).
+Proof. intros s p x b H. inversion H; subst. eauto. Qed.
+
+Lemma Den_ref_inv : forall s p c b, Den s p (TRef c) b ->
+  exists cl, dget c (s_cells s) = Some cl /\ Den s p (c_geom cl) b.
+Proof. intros s p c b H. inversion H; subst. eauto. Qed.
+
+Lemma Den_node_inv : forall s p op args b, Den s p (TNode op args) b ->
+  exists bs, DenL s p args bs /\ b = combine_op op bs.
+Proof. intros s p op args b H. inversion H; subst. eauto. Qed.
+
+Lemma Den_compl_inv : forall s p c b, Den s p (TCompl c) b -> False.
+Proof. intros s p c b H. inversion H. Qed.
+
+Lemma DenL_nil_inv : forall s p bs, DenL s p [] bs -> bs = [].
+Proof. intros s p bs H. inversion H. reflexivity. Qed.
+
+Lemma DenL_cons_inv : forall s p e es bs, DenL s p (e :: es) bs ->
+  exists b bs', bs = b :: bs' /\ Den s p e b /\ DenL s p es bs'.
+Proof. intros s p e es bs H. inversion H; subst. eauto. Qed.
+
+Lemma Den_fun : forall s p,
+  (forall e b, Den s p e b -> forall b', Den s p e b' -> b = b') /\
+  (forall es bs, DenL s p es bs -> forall bs', DenL s p es bs' -> bs = bs').
+Proof.
+  intros s p.
+  apply (Den_DenL_ind T surf P sense s p
+           (fun e b _ => forall b', Den s p e b' -> b = b')
+           (fun es bs _ => forall bs', DenL s p es bs' -> bs = bs')).
+  - intros x o H b' H'. destruct (Den_surf_inv _ _ _ _ H') as (o' & Ho & ->).
+    rewrite H in Ho. inversion Ho; subst. reflexivity.
+  - intros c cl b H _ IH b' H'. destruct (Den_ref_inv _ _ _ _ H') as (cl' & Hc & HD).
+    rewrite H in Hc. inversion Hc; subst. apply IH. exact HD.
+  - intros op args bs _ IH b' H'. destruct (Den_node_inv _ _ _ _ _ H') as (bs' & HD & ->).
+    rewrite (IH _ HD). reflexivity.
+  - intros bs' H'. rewrite (DenL_nil_inv _ _ _ H'). reflexivity.
+  - intros e b es bs _ IH1 _ IH2 bs' H'.
+    destruct (DenL_cons_inv _ _ _ _ _ H') as (b0 & bs0 & -> & HD1 & HD2).
+    rewrite (IH1 _ HD1), (IH2 _ HD2). reflexivity.
+Qed.
+
+(* ---- the image relation: e' is e with every surface replaced by a surface whose sense at p is
+   the old sense at f p, and every referenced cell replaced by a cell whose geometry is an image
+   of the old one ------------------------------------------------------------------------------ *)
+Inductive Img (s : state) (f : P -> P) : tree -> tree -> Prop :=
+| ISurf : forall x x' o o',
+    dget (Z.abs x) (s_surfs s) = Some o -> dget (Z.abs x') (s_surfs s) = Some o' ->
+    (0 <=? x') = (0 <=? x) -> (forall p, sense o' p = sense o (f p)) ->
+    Img s f (TSurf x) (TSurf x')
+| IRef : forall c c' cl cl',
+    dget c (s_cells s) = Some cl -> dget c' (s_cells s) = Some cl' ->
+    Img s f (c_geom cl) (c_geom cl') -> Img s f (TRef c) (TRef c')
+| ICompl : forall c, Img s f (TCompl c) (TCompl c)
+| INode : forall op args args', ImgL s f args args' -> Img s f (TNode op args) (TNode op args')
+with ImgL (s : state) (f : P -> P) : list tree -> list tree -> Prop :=
+| INil : ImgL s f [] []
+| ICons : forall e e' es es', Img s f e e' -> ImgL s f es es' -> ImgL s f (e :: es) (e' :: es').
+
+Scheme Img_mind := Induction for Img Sort Prop
+  with ImgL_mind := Induction for ImgL Sort Prop.
+Combined Scheme Img_ImgL_ind from Img_mind, ImgL_mind.
+
+Lemma Img_mono : forall s s' f, extends s s' ->
+  (forall e e', Img s f e e' -> Img s' f e e') /\ (forall l l', ImgL s f l l' -> ImgL s' f l l').
+Proof.
+  intros s s' f [Hc Hs].
+  apply (Img_ImgL_ind s f (fun e e' _ => Img s' f e e') (fun l l' _ => ImgL s' f l l')).
+  - intros x x' o o' H1 H2 H3 H4. eapply ISurf; eauto.
+  - intros c c' cl cl' H1 H2 _ IH. eapply IRef; eauto.
+  - intros c. apply ICompl.
+  - intros op args args' _ IH. apply INode. exact IH.
+  - apply INil.
+  - intros e e' es es' _ IH1 _ IH2. apply ICons; assumption.
+Qed.
+
+Lemma Img_ext : forall s f g, (forall p, f p = g p) ->
+  (forall e e', Img s f e e' -> Img s g e e') /\ (forall l l', ImgL s f l l' -> ImgL s g l l').
+Proof.
+  intros s f g Hfg.
+  apply (Img_ImgL_ind s f (fun e e' _ => Img s g e e') (fun l l' _ => ImgL s g l l')).
+  - intros x x' o o' H1 H2 H3 H4. eapply ISurf; eauto. intros p. rewrite H4, Hfg. reflexivity.
+  - intros c c' cl cl' H1 H2 _ IH. eapply IRef; eauto.
+  - intros c. apply ICompl.
+  - intros op args args' _ IH. apply INode. exact IH.
+  - apply INil.
+  - intros e e' es es' _ IH1 _ IH2. apply ICons; assumption.
+Qed.
+
+Lemma Forall2_ImgL : forall s f l l', Forall2 (Img s f) l l' -> ImgL s f l l'.
+Proof. intros s f l l' H. induction H; [apply INil | apply ICons; assumption]. Qed.
+
+(* the image at p has the value of the original at f p *)
+Lemma Img_den : forall s f,
+  (forall e e', Img s f e e' -> forall p b, Den s (f p) e b -> Den s p e' b) /\
+  (forall l l', ImgL s f l l' -> forall p bs, DenL s (f p) l bs -> DenL s p l' bs).
+Proof.
+  intros s f.
+  apply (Img_ImgL_ind s f (fun e e' _ => forall p b, Den s (f p) e b -> Den s p e' b)
+           (fun l l' _ => forall p bs, DenL s (f p) l bs -> DenL s p l' bs)).
+  - intros x x' o o' H1 H2 H3 H4 p b HD. destruct (Den_surf_inv _ _ _ _ HD) as (o0 & Ho & ->).
+    rewrite H1 in Ho. inversion Ho; subst o0.
+    replace (lit x (sense o (f p))) with (lit x' (sense o' p)).
+    + apply DSurf. exact H2.
+    + unfold lit. rewrite H3, H4. reflexivity.
+  - intros c c' cl cl' H1 H2 _ IH p b HD. destruct (Den_ref_inv _ _ _ _ HD) as (cl0 & Hc & HD0).
+    rewrite H1 in Hc. inversion Hc; subst cl0.
+    eapply DRef; [exact H2 | apply IH; exact HD0].
+  - intros c p b HD. destruct (Den_compl_inv _ _ _ _ HD).
+  - intros op args args' _ IH p b HD. destruct (Den_node_inv _ _ _ _ _ HD) as (bs & HDL & ->).
+    apply DNode. apply IH. exact HDL.
+  - intros p bs HD. rewrite (DenL_nil_inv _ _ _ HD). apply DNil.
+  - intros e e' es es' _ IH1 _ IH2 p bs HD.
+    destruct (DenL_cons_inv _ _ _ _ _ HD) as (b0 & bs0 & -> & HD1 & HD2). apply DCons; auto.
+Qed.
+
+(* ---- the invariant -------------------------------------------------------------------------- *)
+(* what a cache entry (k, t) -> v promises *)
+Definition entry_ok (s : state) (k : Z) (t : T) (v : Z) : Prop :=
+  if tr_empty t then v = k else Img s (inv t) (TRef k) (TRef v).
+
+Definition cache_ok (s : state) : Prop :=
+  forall k t v, In ((k, t), v) (s_cache s) -> entry_ok s k t v.
+
+(* the counters are above every key in use (construct_volume_t4 starts them there) *)
+Definition fresh_ok (s : state) : Prop :=
+  (forall k, s_nck s < k -> dget k (s_cells s) = None) /\
+  (forall k, s_nsk s < k -> dget k (s_surfs s) = None).
+
+Definition Inv (s : state) : Prop := fresh_ok s /\ cache_ok s.
+
+Lemma entry_ok_mono : forall s s' k t v, extends s s' -> entry_ok s k t v -> entry_ok s' k t v.
+Proof.
+  intros s s' k t v Hx. unfold entry_ok. destruct (tr_empty t); [auto|].
+  apply (proj1 (Img_mono s s' (inv t) Hx)).
+Qed.
+
+Lemma cget_some : forall k t d v, cget k t d = Some v ->
+  exists t', In ((k, t'), v) d /\ teqb t t' = true.
+Proof.
+  intros k t d v. induction d as [|[[k' t'] v'] r IH]; cbn; intros H; [discriminate|].
+  destruct ((k =? k') && teqb t t') eqn:E.
+  - apply andb_true_iff in E. destruct E as [E1 E2]. apply Z.eqb_eq in E1. subst k'.
+    inversion H; subst. exists t'. split; [left; reflexivity | exact E2].
+  - destruct (IH H) as (t1 & Hin & Ht). exists t1. split; [right; exact Hin | exact Ht].
+Qed.
+
+Lemma cset_In : forall k t v d k0 t0 v0, In ((k0, t0), v0) (cset k t v d) ->
+  In ((k0, t0), v0) d \/ (k0 = k /\ v0 = v /\ (t0 = t \/ teqb t t0 = true)).
+Proof.
+  intros k t v d k0 t0 v0. induction d as [|[[k' t'] v'] r IH]; cbn; intros H.
+  - destruct H as [H|[]]. inversion H; subst. right. auto.
+  - destruct ((k =? k') && teqb t t') eqn:E.
+    + destruct H as [H|H].
+      * inversion H; subst. apply andb_true_iff in E. destruct E as [E1 E2].
+        apply Z.eqb_eq in E1. right. auto.
+      * left. right. exact H.
+    + destruct H as [H|H]; [left; left; exact H|].
+      destruct (IH H) as [H1|H1]; [left; right; exact H1 | right; exact H1].
+Qed.
+
+Lemma entry_ok_teqb : forall s k t t0 v, teqb t t0 = true -> entry_ok s k t v -> entry_ok s k t0 v.
+Proof.
+  intros s k t t0 v Ht. destruct (teqb_sound _ _ Ht) as [He Hp].
+  unfold entry_ok. rewrite He. destruct (tr_empty t0); [auto|].
+  apply (proj1 (Img_ext s (inv t) (inv t0) Hp)).
+Qed.
+
+(* a cache hit can be trusted *)
+Lemma cache_hit : forall s k t v, cache_ok s -> cget k t (s_cache s) = Some v -> entry_ok s k t v.
+Proof.
+  intros s k t v Hc H. destruct (cget_some _ _ _ _ H) as (t' & Hin & Ht).
+  specialize (Hc _ _ _ Hin). destruct (teqb_sound _ _ Ht) as [He Hp].
+  unfold entry_ok in *. rewrite He. destruct (tr_empty t'); [exact Hc|].
+  apply (proj1 (Img_ext s (inv t') (inv t) (fun p => eq_sym (Hp p)))). exact Hc.
+Qed.
+
+Definition same_tables (s s' : state) : Prop :=
+  s_cells s' = s_cells s /\ s_surfs s' = s_surfs s /\ s_nck s' = s_nck s /\ s_nsk s' = s_nsk s.
+
+Lemma add_cache_inv : forall s k t v, Inv s -> entry_ok s k t v -> Inv (add_cache k t v s).
+Proof.
+  intros s k t v [Hf Hc] He. split.
+  - exact Hf.
+  - intros k0 t0 v0 Hin. cbn in Hin.
+    assert (Hx : extends s (add_cache k t v s)) by (split; auto).
+    apply (entry_ok_mono _ _ _ _ _ Hx).
+    destruct (cset_In _ _ _ _ _ _ _ Hin) as [Hold|(-> & -> & [->|Ht])].
+    + apply Hc. exact Hold.
+    + exact He.
+    + apply (entry_ok_teqb _ _ _ _ _ Ht He).
+Qed.
+
+Lemma add_cache_extends : forall s k t v, extends s (add_cache k t v s).
+Proof. intros. split; auto. Qed.
+
+(* adding a cell / a surface under a fresh key *)
+Definition add_cell (s : state) (k : Z) (c : cell) : state :=
+  mkSt (dset k c (s_cells s)) (s_surfs s) k (s_nsk s) (s_cache s) (s_rcache s).
+
+Lemma add_cell_extends : forall s c, fresh_ok s -> extends s (add_cell s (s_nck s + 1) c).
+Proof.
+  intros s c [Hf _]. split; cbn; auto.
+  intros k v H. rewrite dget_dset_other; [exact H|].
+  intros ->. rewrite Hf in H by lia. discriminate.
+Qed.
+
+Lemma add_cell_inv : forall s c, Inv s -> Inv (add_cell s (s_nck s + 1) c).
+Proof.
+  intros s c [Hf Hc]. split.
+  - destruct Hf as [Hf1 Hf2]. split; cbn; [|exact Hf2].
+    intros k Hk. rewrite dget_dset_other by lia. apply Hf1. lia.
+  - intros k t v Hin. cbn in Hin.
+    apply (entry_ok_mono _ _ _ _ _ (add_cell_extends s c Hf)). apply Hc. exact Hin.
+Qed.
+
+Definition add_surf (s : state) (k : Z) (o : surf) : state :=
+  mkSt (s_cells s) (dset k o (s_surfs s)) (s_nck s) k (s_cache s) (s_rcache s).
+
+Lemma add_surf_extends : forall s o, fresh_ok s -> extends s (add_surf s (s_nsk s + 1) o).
+Proof.
+  intros s o [_ Hf]. split; cbn; auto.
+  intros k v H. rewrite dget_dset_other; [exact H|].
+  intros ->. rewrite Hf in H by lia. discriminate.
+Qed.
+
+Lemma add_surf_inv : forall s o, Inv s -> Inv (add_surf s (s_nsk s + 1) o).
+Proof.
+  intros s o [Hf Hc]. split.
+  - destruct Hf as [Hf1 Hf2]. split; cbn; [exact Hf1|].
+    intros k Hk. rewrite dget_dset_other by lia. apply Hf2. lia.
+  - intros k t v Hin. cbn in Hin.
+    apply (entry_ok_mono _ _ _ _ _ (add_surf_extends s o Hf)). apply Hc. exact Hin.
+Qed.
+
+(* ---- pot_transform_gen over a cell_transform that keeps its promise -------------------------- *)
+Lemma ptg_spec : forall (ct : Z -> state -> res (Z * state)) t,
+  (forall c s k' s', Inv s -> ct c s = Ok (k', s') ->
+     Inv s' /\ extends s s' /\ Img s' (inv t) (TRef c) (TRef k')) ->
+  forall e s e' s', Inv s -> pot_transform_gen ct t e s = Ok (e', s') ->
+  Inv s' /\ extends s s' /\ Img s' (inv t) e e'.
+Proof.
+  intros ct t Hct e. induction e as [x|c|c|op args IH] using tree_ind'; intros s e' s' HI H.
+  - cbn in H. destruct (dget (Z.abs x) (s_surfs s)) as [o|] eqn:Eo; [|discriminate].
+    inversion H; subst e' s'; clear H.
+    change (mkSt (s_cells s) (dset (s_nsk s + 1) (tr_surf t o) (s_surfs s)) (s_nck s)
+              (s_nsk s + 1) (s_cache s) (s_rcache s)) with (add_surf s (s_nsk s + 1) (tr_surf t o)).
+    pose proof (add_surf_extends s (tr_surf t o) (proj1 HI)) as Hx.
+    split; [apply add_surf_inv; exact HI|]. split; [exact Hx|].
+    destruct HI as [[_ Hfs] _].
+    assert (Hpos : 0 <= Z.abs x) by lia.
+    assert (Hle : Z.abs x <= s_nsk s).
+    { destruct (Z_lt_le_dec (s_nsk s) (Z.abs x)) as [Hlt|Hle]; [|exact Hle].
+      rewrite Hfs in Eo by exact Hlt. discriminate. }
+    eapply ISurf with (o := o) (o' := tr_surf t o).
+    + apply (proj2 Hx). exact Eo.
+    + cbn [add_surf s_surfs].
+      replace (Z.abs (if 0 <=? x then s_nsk s + 1 else - (s_nsk s + 1))) with (s_nsk s + 1)
+        by (destruct (0 <=? x); lia).
+      apply dget_dset_same.
+    + destruct (0 <=? x) eqn:E; [apply Z.leb_le; lia | apply Z.leb_gt; lia].
+    + intros p. apply sense_tr.
+  - cbn in H. destruct (ct c s) as [[k s1]|] eqn:E; [|discriminate].
+    inversion H; subst e' s'. exact (Hct _ _ _ _ HI E).
+  - cbn in H. inversion H; subst. split; [exact HI|]. split; [apply extends_refl | apply ICompl].
+  - cbn in H.
+    destruct (mapM_st (pot_transform_gen ct t) args s) as [[args' s1]|] eqn:E; [|discriminate].
+    inversion H; subst e' s'; clear H.
+    destruct (mapM_st_spec Inv extends extends_refl extends_trans (pot_transform_gen ct t)
+                (fun s a b => Img s (inv t) a b)
+                (fun s s' a b Hx => proj1 (Img_mono s s' (inv t) Hx) a b)
+                args (fun a Hin s b s' => IH a Hin s b s') _ _ _ HI E) as (HI1 & Hx1 & HR).
+    split; [exact HI1|]. split; [exact Hx1|]. apply INode. apply Forall2_ImgL. exact HR.
+Qed.
+
+(* ---- cell_transform --------------------------------------------------------------------------- *)
+Lemma cell_transform_spec : forall fuel k t cache s k' s',
+  Inv s -> cell_transform fuel k t cache s = Ok (k', s') ->
+  Inv s' /\ extends s s' /\ entry_ok s' k t k'.
+Proof.
+  induction fuel as [|f IH]; intros k t cache s k' s' HI H; [discriminate|].
+  cbn [Model.cell_transform] in H.
+  destruct (if cache then cget k t (s_cache s) else None) as [kc|] eqn:Ehit.
+  - inversion H; subst kc s'. split; [exact HI|]. split; [apply extends_refl|].
+    destruct cache; [|discriminate]. apply cache_hit; [exact (proj2 HI) | exact Ehit].
+  - destruct (tr_empty t) eqn:Et.
+    + inversion H; subst k' s'; clear H.
+      assert (He : entry_ok s k t k) by (unfold entry_ok; rewrite Et; reflexivity).
+      destruct cache.
+      * split; [apply add_cache_inv; auto|]. split; [apply add_cache_extends|].
+        unfold entry_ok. rewrite Et. reflexivity.
+      * split; [exact HI|]. split; [apply extends_refl | exact He].
+    + destruct (dget k (s_cells s)) as [cl|] eqn:Ecl; [|discriminate].
+      destruct (pot_transform_gen (fun c => cell_transform f c t true) t (c_geom cl) s)
+        as [[g' s1]|] eqn:Eg; [|discriminate].
+      assert (Hct : forall c s0 k0 s0', Inv s0 -> cell_transform f c t true s0 = Ok (k0, s0') ->
+                 Inv s0' /\ extends s0 s0' /\ Img s0' (inv t) (TRef c) (TRef k0)).
+      { intros c s0 k0 s0' HI0 E0. destruct (IH _ _ _ _ _ _ HI0 E0) as (A & B & C).
+        split; [exact A|]. split; [exact B|]. unfold entry_ok in C. rewrite Et in C. exact C. }
+      destruct (ptg_spec _ t Hct _ _ _ _ HI Eg) as (HI1 & Hx1 & Himg).
+      set (nk := s_nck s1 + 1) in *.
+      change (mkSt (dset nk (with_geom cl g') (s_cells s1)) (s_surfs s1) nk (s_nsk s1)
+                (s_cache s1) (s_rcache s1)) with (add_cell s1 nk (with_geom cl g')) in H.
+      pose proof (add_cell_extends s1 (with_geom cl g') (proj1 HI1)) as Hx2. fold nk in Hx2.
+      pose proof (add_cell_inv s1 (with_geom cl g') HI1) as HI2. fold nk in HI2.
+      set (s2 := add_cell s1 nk (with_geom cl g')) in *.
+      assert (He : entry_ok s2 k t nk).
+      { unfold entry_ok. rewrite Et.
+        eapply IRef with (cl := cl) (cl' := with_geom cl g').
+        - apply (proj1 Hx2). apply (proj1 Hx1). exact Ecl.
+        - unfold s2. cbn [add_cell s_cells]. apply dget_dset_same.
+        - cbn [with_geom c_geom]. apply (proj1 (Img_mono _ _ _ Hx2)). exact Himg. }
+      assert (Hx : extends s s2) by (eapply extends_trans; eauto).
+      destruct cache; inversion H; subst k' s'; clear H.
+      * split.
+        { apply add_cache_inv; [exact HI2 | exact He]. }
+        split; [eapply extends_trans; [exact Hx | apply add_cache_extends]|].
+        apply (entry_ok_mono _ _ _ _ _ (add_cache_extends s2 k t nk)). exact He.
+      * split; [exact HI2|]. split; [exact Hx | exact He].
+Qed.
 
 End Proofs.
